@@ -129,7 +129,7 @@ def arg_records(ck):
     def one(name, arg_snap, call):
         nonlocal n
         n += 1
-        rec = {"id": "A-%s-%d" % (name, n), "rk": "args", "before": arg_snap()}
+        rec = {"id": "A-%s-%d" % (name, n), "rk": "args", "what": name, "before": arg_snap()}
         try:
             call()
             rec["outcome"] = "ok"
